@@ -2599,3 +2599,262 @@ Proof.
   apply is_nil_app_false_inv in Hd. subst raw. cbn [ser_value] in Hs. apply set_value_ok in Hs as [-> _].
   split; reflexivity.
 Qed.
+
+(* ====================================================================================== *)
+(* 15. The specification function computes the inductive specification relation              *)
+(* ====================================================================================== *)
+
+Lemma opt_concat_some (l : list (option bytes)) b : opt_concat l = Some b ->
+  exists ps, l = map Some ps /\ b = concat ps.
+Proof.
+  unfold opt_concat. revert b. induction l as [|o l IH]; intros b H; cbn [fold_right] in H.
+  - apply some_inj in H. subst. exists []. split; reflexivity.
+  - destruct o as [x|]; [|discriminate]. destruct (fold_right _ _ l) as [a|] eqn:E; [|discriminate].
+    apply some_inj in H. subst b. destruct (IH a eq_refl) as (ps & -> & ->). exists (x :: ps). split; reflexivity.
+Qed.
+
+Lemma opt_concat_map_some (ps : list bytes) : opt_concat (map Some ps) = Some (concat ps).
+Proof. unfold opt_concat. induction ps as [|p ps IH]; [reflexivity|]. cbn [map fold_right concat]. rewrite IH. reflexivity. Qed.
+
+Lemma map_eq_Forall2 {A B} (g : A -> option B) l ys : map g l = map Some ys -> Forall2 (fun x y => g x = Some y) l ys.
+Proof.
+  revert ys. induction l as [|x l IH]; intros ys H; destruct ys; try discriminate; constructor.
+  - cbn in H. inversion H. reflexivity.
+  - apply IH. cbn in H. inversion H. reflexivity.
+Qed.
+
+Lemma Forall2_map_eq {A B} (g : A -> option B) l ys : Forall2 (fun x y => g x = Some y) l ys -> map g l = map Some ys.
+Proof. induction 1 as [|x y l ys H _ IH]; [reflexivity|]. cbn [map]. rewrite H, IH. reflexivity. Qed.
+
+Lemma enc_spec_nonempty_native n v : v <> CEmpty -> enc_spec (TNative n) v = enc_native n v.
+Proof. intros H. destruct v; try reflexivity. congruence. Qed.
+
+Lemma enc_native_empty n : enc_native n CEmpty = None.
+Proof. destruct n; reflexivity. Qed.
+
+Definition ERP (t : ctype) : Prop := forall v b, enc_spec t v = Some b <-> EncR t v b.
+
+Lemma er_seq_fwd e (l : list cval) body : ERP e ->
+  opt_concat (map (fun x => option_map (fun b => spec_bytes (Some b)) (enc_spec e x)) l) = Some body ->
+  exists ps, Forall2 (EncR e) l ps /\ body = concat (map (fun p => spec_bytes (Some p)) ps).
+Proof.
+  intros HE H. apply opt_concat_some in H as (qs & Hm & ->).
+  apply map_eq_Forall2 in Hm.
+  assert (exists ps, Forall2 (EncR e) l ps /\ qs = map (fun p => spec_bytes (Some p)) ps) as (ps & HF & ->).
+  { induction Hm as [|x q l qs Hq _ IH]; [exists []; split; [constructor|reflexivity]|].
+    destruct IH as (ps & HF & ->). destruct (enc_spec e x) as [p|] eqn:Ep; [|discriminate]. cbn in Hq.
+    apply some_inj in Hq. subst q. exists (p :: ps). split; [constructor; [apply HE; exact Ep|exact HF]|reflexivity]. }
+  exists ps. split; [exact HF|reflexivity].
+Qed.
+
+Lemma er_seq_bwd e (l : list cval) ps : ERP e -> Forall2 (EncR e) l ps ->
+  opt_concat (map (fun x => option_map (fun b => spec_bytes (Some b)) (enc_spec e x)) l)
+  = Some (concat (map (fun p => spec_bytes (Some p)) ps)).
+Proof.
+  intros HE HF. rewrite <- opt_concat_map_some. f_equal. rewrite map_map.
+  induction HF as [|x p l ps Hp _ IH]; [reflexivity|]. cbn [map]. apply HE in Hp. rewrite Hp, IH. reflexivity.
+Qed.
+
+Lemma opt_concat_iff {A} (g : A -> option bytes) l b :
+  opt_concat (map g l) = Some b <-> exists qs, Forall2 (fun x q => g x = Some q) l qs /\ b = concat qs.
+Proof.
+  split.
+  - intros H. apply opt_concat_some in H as (qs & Hm & ->). exists qs. split; [apply map_eq_Forall2; exact Hm|reflexivity].
+  - intros (qs & HF & ->). rewrite (Forall2_map_eq _ _ _ HF). apply opt_concat_map_some.
+Qed.
+
+Lemma Forall2_exists_map {A B C} (R : A -> B -> Prop) (S : A -> C -> Prop) (h : C -> B) l qs :
+  Forall2 R l qs -> (forall x q, In x l -> R x q -> exists p, S x p /\ q = h p) ->
+  exists ps, Forall2 S l ps /\ qs = map h ps.
+Proof.
+  induction 1 as [|x q l qs Hq _ IH]; intros H; [exists []; split; [constructor|reflexivity]|].
+  destruct (H x q (or_introl eq_refl) Hq) as (p & Hp & ->).
+  destruct (IH (fun x' q' Hx => H x' q' (or_intror Hx))) as (ps & HF & ->).
+  exists (p :: ps). split; [constructor; assumption|reflexivity].
+Qed.
+
+Lemma Forall2_map_r {A B C} (R : A -> B -> Prop) (S : A -> C -> Prop) (h : C -> B) l ps :
+  Forall2 S l ps -> (forall x p, In x l -> S x p -> R x (h p)) -> Forall2 R l (map h ps).
+Proof.
+  induction 1 as [|x p l ps Hp _ IH]; intros H; [constructor|]. cbn [map]. constructor.
+  - apply H; [left; reflexivity|exact Hp].
+  - apply IH. intros x' p' Hx. apply H. right. exact Hx.
+Qed.
+
+Lemma er_items ts : Forall ERP ts -> forall l b,
+  enc_tuple_go enc_spec ts l = Some b <-> exists ps, EncItems ts l ps /\ b = concat ps.
+Proof.
+  induction 1 as [|t ts Ht HF IH]; intros l b.
+  - destruct l as [|ox l]; cbn [enc_tuple_go].
+    + split; [intros H; apply some_inj in H; subst; exists []; split; [constructor|reflexivity]|].
+      intros (ps & Hi & ->). inversion Hi; subst. reflexivity.
+    + split; [discriminate|]. intros (ps & Hi & _). inversion Hi.
+  - destruct l as [|ox l]; cbn [enc_tuple_go].
+    + split; [intros H; apply some_inj in H; subst; exists []; split; [constructor|reflexivity]|].
+      intros (ps & Hi & ->). inversion Hi; subst. reflexivity.
+    + split.
+      * intros H. destruct ox as [x|].
+        -- destruct (enc_spec t x) as [p|] eqn:Ep; [|discriminate]. cbn [option_map] in H.
+           destruct (enc_tuple_go enc_spec ts l) as [r|] eqn:Er; [|discriminate]. apply some_inj in H. subst b.
+           destruct (proj1 (IH l r) Er) as (ps & Hi & ->).
+           exists (spec_bytes (Some p) :: ps). split; [constructor; [apply Ht; exact Ep|exact Hi]|reflexivity].
+        -- destruct (enc_tuple_go enc_spec ts l) as [r|] eqn:Er; [|discriminate]. apply some_inj in H. subst b.
+           destruct (proj1 (IH l r) Er) as (ps & Hi & ->).
+           exists (spec_bytes None :: ps). split; [constructor; exact Hi|reflexivity].
+      * intros (ps & Hi & ->). inversion Hi; subst;
+          match goal with Hr : EncItems ts l ?q |- _ => rewrite (proj2 (IH l (concat q)) (ex_intro _ q (conj Hr eq_refl))) end.
+        -- reflexivity.
+        -- match goal with Hx : EncR t _ _ |- _ => apply Ht in Hx; rewrite Hx end. reflexivity.
+Qed.
+
+Lemma er_fields fields fts : Forall (fun f => ERP (snd f)) fts -> forall b,
+  enc_udt_go enc_spec fields fts = Some b <-> exists ps, EncFields fields fts ps /\ b = concat ps.
+Proof.
+  induction 1 as [|[fname ft] fts Ht HF IH]; intros b; cbn [enc_udt_go].
+  - split; [intros H; apply some_inj in H; subst; exists []; split; [constructor|reflexivity]|].
+    intros (ps & Hi & ->). inversion Hi; subst. reflexivity.
+  - cbn [snd] in Ht. split.
+    + intros H. destruct (lookup_first fname fields) as [[x|]|] eqn:El.
+      * destruct (enc_spec ft x) as [p|] eqn:Ep; [|discriminate]. cbn [option_map] in H.
+        destruct (enc_udt_go enc_spec fields fts) as [r|] eqn:Er; [|discriminate]. apply some_inj in H. subst b.
+        destruct (proj1 (IH r) eq_refl) as (ps & Hi & ->).
+        exists (spec_bytes (Some p) :: ps). split; [eapply EF_val; [exact El|apply Ht; exact Ep|exact Hi]|reflexivity].
+      * destruct (enc_udt_go enc_spec fields fts) as [r|] eqn:Er; [|discriminate]. apply some_inj in H. subst b.
+        destruct (proj1 (IH r) eq_refl) as (ps & Hi & ->).
+        exists (spec_bytes None :: ps). split; [apply EF_null; [right; exact El|exact Hi]|reflexivity].
+      * destruct (enc_udt_go enc_spec fields fts) as [r|] eqn:Er; [|discriminate]. apply some_inj in H. subst b.
+        destruct (proj1 (IH r) eq_refl) as (ps & Hi & ->).
+        exists (spec_bytes None :: ps). split; [apply EF_null; [left; exact El|exact Hi]|reflexivity].
+    + intros (ps & Hi & ->). inversion Hi; subst;
+        match goal with Hr : EncFields fields fts ?q |- _ => rewrite (proj2 (IH (concat q)) (ex_intro _ q (conj Hr eq_refl))) end.
+      * match goal with Hl : _ \/ _ |- _ => destruct Hl as [-> | ->] end; reflexivity.
+      * match goal with Hl : lookup_first fname fields = _ |- _ => rewrite Hl end.
+        match goal with Hx : EncR ft _ _ |- _ => apply Ht in Hx; rewrite Hx end. reflexivity.
+Qed.
+
+Lemma enc_spec_seq' t e v : (t = TList e \/ t = TSet e) -> v <> CEmpty ->
+  enc_spec t v =
+  match vec_elems v with
+  | Some l => option_map (fun body => spec_int (Z.of_nat (List.length l)) ++ body)
+                (opt_concat (map (fun x => option_map (fun b => spec_bytes (Some b)) (enc_spec e x)) l))
+  | None => None
+  end.
+Proof. intros [-> | ->] H; destruct v; try reflexivity; congruence. Qed.
+
+Lemma enc_spec_vector' e d v : v <> CEmpty ->
+  enc_spec (TVector e d) v =
+  match vec_elems v with
+  | Some l =>
+      if negb (N.of_nat (List.length l) =? d) then None else
+      match spec_fixed_len e with
+      | Some s => opt_concat (map (fun x => match enc_spec e x with
+                                            | Some b => if (List.length b =? s)%nat then Some b else None
+                                            | None => None
+                                            end) l)
+      | None => opt_concat (map (fun x => option_map (fun b => spec_uvint (blen b) ++ b) (enc_spec e x)) l)
+      end
+  | None => None
+  end.
+Proof. intros H; destruct v; try reflexivity; congruence. Qed.
+
+Lemma encR_not_empty_cases t b : EncR t CEmpty b -> supports_empty t = true /\ b = [].
+Proof.
+  intros H. inversion H; subst; try (split; [assumption|reflexivity]); try discriminate.
+  rewrite enc_native_empty in *. discriminate.
+Qed.
+
+Theorem enc_spec_relation t : ERP t.
+Proof.
+  induction t as [n|e IH|e IH|k e IHk IHe|ts IH|ks nm fts IH|e d IH] using ctype_ind'; intros v b;
+    (destruct (cval_is_empty_dec v) as [->|Hne];
+     [ rewrite enc_spec_empty; split;
+       [ destruct (supports_empty _) eqn:Es; [intros H; apply some_inj in H; subst; constructor; exact Es|discriminate]
+       | intros H; apply encR_not_empty_cases in H as [-> ->]; reflexivity ] | ]).
+  - rewrite enc_spec_nonempty_native by exact Hne. split; [intros H; constructor; exact H|].
+    intros H. inversion H; subst; [congruence|assumption].
+  - rewrite (enc_spec_seq' _ e v (or_introl eq_refl) Hne). split.
+    + destruct (vec_elems v) as [l|] eqn:El; [|discriminate]. intros H.
+      destruct (opt_concat _) as [body|] eqn:Eb; [|discriminate]. apply some_inj in H. subst b.
+      destruct (er_seq_fwd e l body IH Eb) as (ps & HF & ->). econstructor; eassumption.
+    + intros H. inversion H; subst; [congruence|].
+      match goal with Hv : vec_elems v = Some _ |- _ => rewrite Hv end.
+      match goal with HF : Forall2 (EncR e) _ _ |- _ => rewrite (er_seq_bwd e _ _ IH HF) end. reflexivity.
+  - rewrite (enc_spec_seq' _ e v (or_intror eq_refl) Hne). split.
+    + destruct (vec_elems v) as [l|] eqn:El; [|discriminate]. intros H.
+      destruct (opt_concat _) as [body|] eqn:Eb; [|discriminate]. apply some_inj in H. subst b.
+      destruct (er_seq_fwd e l body IH Eb) as (ps & HF & ->). econstructor; eassumption.
+    + intros H. inversion H; subst; [congruence|].
+      match goal with Hv : vec_elems v = Some _ |- _ => rewrite Hv end.
+      match goal with HF : Forall2 (EncR e) _ _ |- _ => rewrite (er_seq_bwd e _ _ IH HF) end. reflexivity.
+  - (* map *)
+    split.
+    + destruct v; try (cbn [enc_spec]; discriminate); try congruence. cbn [enc_spec]. intros H.
+      destruct (opt_concat _) as [body|] eqn:Eb; [|discriminate]. apply some_inj in H. subst b.
+      apply opt_concat_iff in Eb as (qs & HF & ->).
+      destruct (Forall2_exists_map _
+                  (fun (kv : cval * cval) (p : bytes * bytes) => EncR k (fst kv) (fst p) /\ EncR e (snd kv) (snd p))
+                  (fun p => spec_bytes (Some (fst p)) ++ spec_bytes (Some (snd p))) l qs HF) as (ps & HF' & ->).
+      { intros kv q _ Hq. destruct (enc_spec k (fst kv)) as [a|] eqn:Ea; [|discriminate].
+        destruct (enc_spec e (snd kv)) as [c|] eqn:Ec; [|discriminate]. apply some_inj in Hq. subst q.
+        exists (a, c). split; [split; [apply IHk; exact Ea|apply IHe; exact Ec]|reflexivity]. }
+      constructor. exact HF'.
+    + intros H. inversion H; subst; [congruence|]. cbn [enc_spec].
+      match goal with HF : Forall2 _ l ?ps |- _ =>
+        assert (Eb : opt_concat (map (fun kv => match enc_spec k (fst kv), enc_spec e (snd kv) with
+                                                | Some a, Some b => Some (spec_bytes (Some a) ++ spec_bytes (Some b))
+                                                | _, _ => None end) l)
+                     = Some (concat (map (fun p => spec_bytes (Some (fst p)) ++ spec_bytes (Some (snd p))) ps)))
+      end.
+      { apply opt_concat_iff. eexists. split; [|reflexivity]. eapply Forall2_map_r; [eassumption|].
+        intros kv p _ [Ha Hc]. apply IHk in Ha. apply IHe in Hc. rewrite Ha, Hc. reflexivity. }
+      rewrite Eb. reflexivity.
+  - (* tuple *)
+    split.
+    + destruct v; try (cbn [enc_spec]; discriminate); try congruence. rewrite enc_spec_tuple. intros H.
+      destruct (proj1 (er_items ts IH l b) H) as (ps & Hi & ->). constructor. exact Hi.
+    + intros H. inversion H; subst; [congruence|]. rewrite enc_spec_tuple. apply (er_items ts IH).
+      eexists. split; [eassumption|reflexivity].
+  - (* udt *)
+    split.
+    + destruct v; try (cbn [enc_spec]; discriminate); try congruence. rewrite enc_spec_udt. intros H.
+      destruct (negb (bytes_eqb ks0 ks && bytes_eqb nm0 nm)) eqn:En; [discriminate|].
+      destruct (forallb (fun f : bytes * option cval => existsb (bytes_eqb (fst f)) (map fst fts)) fields) eqn:Ef;
+        cbn [negb] in H; [|discriminate].
+      apply negb_false_iff, andb_true_iff in En as [E1 E2]. apply bytes_eqb_eq in E1, E2. subst.
+      destruct (proj1 (er_fields fields fts IH b) H) as (ps & Hi & ->).
+      constructor; try reflexivity; [|exact Hi].
+      intros f Hf. pose proof (forallb_In _ _ _ Ef Hf) as Hx. cbn beta in Hx.
+      apply existsb_exists in Hx as (m & Hm & Em). apply bytes_eqb_eq in Em. subst. exact Hm.
+    + intros H. inversion H; subst; [congruence|]. rewrite enc_spec_udt.
+      assert (bytes_eqb ks ks && bytes_eqb nm nm = true) as -> by (apply andb_true_iff; split; apply bytes_eqb_eq; reflexivity).
+      cbn [negb].
+      match goal with Hin : forall f, In f ?fl -> _ |- _ =>
+        assert (forallb (fun f => existsb (bytes_eqb (fst f)) (map fst fts)) fl = true) as ->
+      end.
+      { apply forallb_forall. intros f Hf. apply existsb_exists. exists (fst f). split; [auto|apply bytes_eqb_eq; reflexivity]. }
+      cbn [negb]. apply (er_fields _ fts IH). eexists. split; [eassumption|reflexivity].
+  - (* vector *)
+    rewrite (enc_spec_vector' e d v Hne). split.
+    + destruct (vec_elems v) as [l|] eqn:El; [|discriminate].
+      destruct (N.of_nat (List.length l) =? d) eqn:Ed; cbn [negb]; [|discriminate]. apply N.eqb_eq in Ed.
+      destruct (spec_fixed_len e) as [s|] eqn:Es; intros H; apply opt_concat_iff in H as (qs & HF & ->).
+      * eapply ER_vector_fixed; try eassumption.
+        eapply Forall2_impl_In; [exact HF|]. intros x q _ _ Hq. cbn beta in Hq.
+        destruct (enc_spec e x) as [p|] eqn:Ep; [|discriminate].
+        destruct (List.length p =? s)%nat eqn:El'; [|discriminate]. apply some_inj in Hq. subst q.
+        split; [apply IH; exact Ep|apply Nat.eqb_eq; exact El'].
+      * destruct (Forall2_exists_map _ (EncR e) (fun p => spec_uvint (blen p) ++ p) l qs HF) as (ps & HF' & ->).
+        { intros x q _ Hq. destruct (enc_spec e x) as [p|] eqn:Ep; [|discriminate]. cbn in Hq.
+          apply some_inj in Hq. subst q. exists p. split; [apply IH; exact Ep|reflexivity]. }
+        eapply ER_vector_var; eassumption.
+    + intros H. inversion H; subst; [congruence| |].
+      * match goal with Hv : vec_elems v = Some _ |- _ => rewrite Hv end. rewrite N.eqb_refl. cbn [negb].
+        match goal with Hs : spec_fixed_len e = _ |- _ => rewrite Hs end.
+        apply opt_concat_iff. eexists. split; [|reflexivity].
+        eapply Forall2_impl_In; [eassumption|]. intros x p _ _ [Hp Hl]. cbn beta.
+        apply IH in Hp. rewrite Hp, Hl, Nat.eqb_refl. reflexivity.
+      * match goal with Hv : vec_elems v = Some _ |- _ => rewrite Hv end. rewrite N.eqb_refl. cbn [negb].
+        match goal with Hs : spec_fixed_len e = _ |- _ => rewrite Hs end.
+        apply opt_concat_iff. eexists. split; [|reflexivity].
+        eapply Forall2_map_r; [eassumption|]. intros x p _ Hp. cbn beta. apply IH in Hp. rewrite Hp. reflexivity.
+Qed.
